@@ -73,7 +73,7 @@ boundaries and up to 1 MiB with random cut points, every single-bit change of sa
 check against SHA1(salt | 20 zero bytes). distinct = distinct (length, distribution) pairs + bit positions flipped"
         .to_string();
     let max_l: usize = match tier {
-        "quick" => 10,
+        "quick" => 12,
         "thorough" => 20,
         _ => 2,
     };
@@ -103,7 +103,7 @@ check against SHA1(salt | 20 zero bytes). distinct = distinct (length, distribut
     total.exhaustive = Some(true);
     total.note(format!("all distributions of byte strings of length 0..={} over the five arguments were enumerated", max_l));
     let (n_sizes, big): (usize, usize) = match tier {
-        "quick" => (400, 2),
+        "quick" => (20000, 4),
         "thorough" => (60000, 32),
         _ => (2, 0),
     };
